@@ -295,6 +295,7 @@ ModelRes modelBinary(const World& W, const std::string& op, int fa, const Table&
                 else if (op == "MAXIMUM") r = x > y ? x : y;
                 else r = x < y ? x : y;
                 M.T[i] = Val::R(r);
+                if (op == "PLUS" || op == "MINUS") M.T[i].s = std::fabs(x) > std::fabs(y) ? std::fabs(x) : std::fabs(y);
             } else {
                 long x = a.i, y = b.i, r = 0;
                 if (op == "PLUS") r = x + y;
